@@ -1,5 +1,6 @@
 import RsModel.Props.C11
 import RsModel.Props.C10
+import RsModel.Props.C16
 /-!
 # C19 — unsafe code never acts outside its preconditions
 One theorem per kind of unsafe operation: the stated precondition holds whenever the model reaches it.
@@ -115,5 +116,17 @@ theorem c19_substring_range (line : Text) (a b : Nat) (h : a < b) :
 /-- the lifetime-extended reference into the cached maps: an entry, once stored, is never replaced -/
 theorem c19_cached_map_write_once (σ : Store) (k : Nat × Opts) (v w : Option SMap) (h : σ.get? k = some v) :
     (σ.insertNew k w).get? k = some v := c10_write_once σ k v w h
+
+/-- `get_unchecked(start_chunk_index)` / `get_unchecked(end_chunk_index)` in `Rope::get_byte_slice_impl`: for every
+rope built by constructors and slices from `&str`s, and every in-range window, the indices found by the two binary
+searches are inside the piece vector -/
+theorem c19_rope_slice_indices_in_range (p : RProgS) (h : p.TextsOK) (r : Rope) (hr : p.eval = .ok r) (a b : Nat)
+    (hab : a ≤ b) (hb : b ≤ r.render.length) : Rope.sliceUnsafeOK r a b = true :=
+  Rope.sliceUnsafeOK_spec r ((c16_program p h).2 r hr) a b hab hb
+
+/-- `get_byte` never indexes outside the found piece -/
+theorem c19_rope_get_byte_in_range (p : RProgS) (h : p.TextsOK) (r : Rope) (hr : p.eval = .ok r) (i : Nat) :
+    ∃ v, r.getByte i = .ok v :=
+  ⟨_, Rope.getByte_spec r ((c16_program p h).2 r hr).inv i⟩
 
 end Rs
